@@ -35,7 +35,7 @@ def generate(rng, i, tier):
     rows = gen.gen_rows(rng)
     hdr = rows[0]
     k = rng.choice([1, 2, 2, 3, 3, 4])
-    members = [gen.gen_member(rng, hdr, len(rows), f"m{j}") for j in range(k)]
+    members = [gen.gen_member(rng, hdr, len(rows), f"m{j}", zoo_p=0.4, zoo_pool=gen.ZOO_SAFE) for j in range(k)]
     rng.shuffle(members)  # seeded member order
     return {"seed": rng.getrandbits(32), "rows": rows, "members": members, "dialect": rng.choice(DIALECTS), "policy": rng.choice([["collect", "print"], ["collect"], ["collect", "fail"], ["collect", "stop"]])}
 
